@@ -86,11 +86,13 @@ def dimacsOp (j : Json) : R Json := do
 /-- `c17.qasm` -/
 def qasmOp (j : Json) : R Json := do
   let name ← j.getObjValAs? String "name"
-  let qubits ← j.getObjValAs? (List String) "qubits"
+  let qubits ← (← (← j.getObjVal? "qubits").getArr?).toList.mapM (fun p => do
+    let a ← p.getArr?
+    pure (← a[0]!.getStr?, ← a[1]!.getNat?))
   let n ← j.getObjValAs? Nat "n"
   let gates ← parseGates (← j.getObjVal? "gates")
   let ver ← j.getObjValAs? String "version"
-  let qc : QCirc := { name := name, qubitNames := qubits, numQubits := n, gates := gates }
+  let qc : QCirc := { name := name, qubitMap := qubits, numQubits := n, gates := gates }
   pure (Json.mkObj [("stdout", Json.str (exportQasm (qasmVersion ver) qc ++ "\n"))])
 
 def handle (op : String) (j : Json) : Option (Except String Json) :=
